@@ -755,10 +755,7 @@ class Path:
                 return "sat", fresh_model, True
         m = s.model() if r == z3.sat else None
         if r == z3.sat and prefer:
-            for p_ in prefer:
-                s.add(p_)
-            if guarded_check(s, 20) == z3.sat:
-                m = s.model()
+            m = _preferred_model(s, prefer) or m
         s.pop()
         STATS["solver_s"] += time.time() - t0
         return str(r), m, True
@@ -802,10 +799,7 @@ class Path:
                 return "sat", fm, True
         m = s.model() if r == z3.sat else None
         if r == z3.sat and prefer:
-            for p_ in prefer:
-                s.add(p_)
-            if guarded_check(s, 20) == z3.sat:
-                m = s.model()
+            m = _preferred_model(s, prefer) or m
         STATS["solver_s"] += time.time() - t0
         return str(r), m, True
 
@@ -862,6 +856,23 @@ class Path:
             s.add(c)
         s.add(z3.Not(lift(claim)))
         return s.to_smt2()
+
+
+def _preferred_model(s, prefer):
+    """a model of the (satisfiable) query on solver `s` that also satisfies the preferences: `prefer` is a flat list of
+    constraints (all or nothing) or a list of TIERS (lists): all tiers are tried first, then all but the last, ..."""
+    tiers = list(prefer) if prefer and isinstance(prefer[0], (list, tuple)) else [list(prefer)]
+    for k in range(len(tiers), 0, -1):
+        s.push()
+        try:
+            for tier in tiers[:k]:
+                for p_ in tier:
+                    s.add(p_)
+            if guarded_check(s, 20) == z3.sat:
+                return s.model()
+        finally:
+            s.pop()
+    return None
 
 
 PATH_START = []   # callbacks run before every explored path (symx.stack: reset process state of the code under test)
